@@ -58,7 +58,8 @@ PROPS = {
                                "constructor_names", "ignore_codes_upper", "prefilter_complete", "near_miss_inert",
                                "acceptAfter_iff", "list_complete", "constructor_complete", "packageonly_complete", "ignore_complete",
                                "list_sound", "constructor_sound"]),
-        "suites": ["gram", ("prog", {"focus": "ANN:IKTMP"}), ("std", {"withmodel": "1", "focus": "ANN:IKTMP"})],
+        "suites": ["gram", ("prog", {"focus": "ANN:IKTMP"}), ("std", {"withmodel": "1", "focus": "ANN:IKTMP"}),
+                   ("prog", {"impl": "1", "focus": "IMPL", "n": 50, "nocorpus": "1"})],
         "assumptions": [
             "comment texts are byte strings; RE2's \\s, \\w and the identifier classes are ASCII, '.' excludes only LF",
             "the regexes and the Aho-Corasick pre-filter are not translated into Lean: they are tied to the recogniser functions by the bounded-exhaustive + fuzz correspondence (as the property itself prescribes)",
